@@ -167,35 +167,45 @@ func runPathLock(rep *Report) {
 			case op == 7 && held != nil: // wait flag: blocks until the holder closes
 				o := good
 				o.Flags = txfile.FlagWaitLock
-				done := make(chan string, 1)
+				type wres struct {
+					f   *txfile.File
+					res string
+				}
+				done := make(chan wres, 1)
 				go func() {
 					f, err := txfile.Open(path, 0o600, o)
 					if err != nil {
-						done <- engine.ErrKind(err)
+						done <- wres{nil, engine.ErrKind(err)}
 						return
 					}
-					f.Close()
-					done <- "ok"
+					done <- wres{f, "ok"}
 				}()
 				select {
-				case res := <-done:
-					fail(i, "waitlock-not-blocking", "Open with FlagWaitLock returned (%s) while the file is open", res)
+				case w := <-done:
+					fail(i, "waitlock-not-blocking", "Open with FlagWaitLock returned (%s) while the file is open", w.res)
+					if w.f != nil {
+						w.f.Close()
+					}
 				case <-time.After(20 * time.Millisecond):
 				}
 				held.Close()
 				held = nil
 				emit("pathop close => ok")
 				emit("pathop openOk => ok")
-				emit("pathop close => ok")
 				select {
-				case res := <-done:
-					if res != "ok" {
-						fail(i, "waitlock", "waiting Open failed after the holder closed: %s", res)
+				case w := <-done:
+					if w.res != "ok" {
+						fail(i, "waitlock", "waiting Open failed after the holder closed: %s", w.res)
+						emit("pathop close => ok")
+					} else {
+						// the waiter keeps the file open: the lock was handed over, later opens must fail
+						held = w.f
 					}
 				case <-time.After(3 * time.Second):
 					fail(i, "waitlock-stuck", "waiting Open did not return after the holder closed")
+					emit("pathop close => ok")
 				}
-				trace = append(trace, "open(wait)+close")
+				trace = append(trace, "open(wait): handover")
 				rep.Markers["waitlock"]++
 			}
 		}
